@@ -49,7 +49,7 @@ type c14Cli struct {
 	MaxBody   int64 // -1 = no limit
 	Redirects int   // -redirects
 	Redir     []int // per target: the server redirects (302) this many times before it answers 200
-	RateN     int    // -rate=RateN/RatePer
+	RateN     int   // -rate=RateN/RatePer
 	RatePerMS int
 	DurMS     int    // -duration
 	MaxBodyAs string // notation used for -max-body ("" = plain integer)
